@@ -71,10 +71,38 @@ def collect(ctx):
     return out
 
 
+def relax_decision_diff(d):
+    """the diffs a strategy bundles into a custom decision are concatenations of the bundled decisions' diffs: several
+    insertions at one position stand for one insertion of the concatenated items, and `clear_all` on an empty list is a
+    removal of zero items. Neither contradicts the property (ordered by position, no overlap, within bounds); the
+    stricter normal form (one insertion per position, removals of at least one item) is what the differ theorems
+    prove and is demanded of differ output only."""
+    out = []
+    for e in d:
+        e = dict(e)
+        if e.get('op') == 'patch' and isinstance(e.get('diff'), list):
+            e['diff'] = relax_decision_diff(e['diff'])
+        if e.get('op') == 'removerange' and e.get('length') == 0:
+            continue
+        if (e.get('op') == 'addrange' and out and out[-1].get('op') == 'addrange' and out[-1].get('key') == e.get('key')
+                and type(out[-1].get('valuelist')) is type(e.get('valuelist'))):
+            out[-1] = dict(out[-1], valuelist=out[-1]['valuelist'] + e['valuelist'])
+            continue
+        out.append(e)
+    return out
+
+
 def check(ctx, items):
     drv = vlib.Driver()
     val = schema_validator()
-    replies = drv.run([{'cmd': 'wfchars' if o.endswith('.line') else 'wf', 'doc': enc(doc), 'diff': enc_diff(d)} for o, doc, d in items])
+    def for_wf(o, d):
+        if str(o).startswith('decision.'):
+            r = relax_decision_diff(d)
+            if r != d:
+                ctx.count('decision diff normalised (insertion runs / zero-length removal)')
+            return r
+        return d
+    replies = drv.run([{'cmd': 'wfchars' if o.endswith('.line') else 'wf', 'doc': enc(doc), 'diff': enc_diff(for_wf(o, d))} for o, doc, d in items])
     for (origin, doc, d), rep in zip(items, replies):
         ctx.count('origin:' + origin)
         ctx.count('ops:%d' % min(len(d), 6))
